@@ -192,7 +192,21 @@ def run(ck, P):
             "c->modules whose callback deregisters the module and returns 0 on all paths, then detaches the thread exactly once "
             "and drops the context reference exactly once, in this order", floor=2)
     passes = [ev for ev in dereg.calls("m_map_iterate") if ev.args and S(ev.args[0]).endswith("->modules")]
-    ck.need(passes, "m_ctx_deregister has no pass over the modules")
+    if not passes:
+        # the pass written as a loop over a map *iterator*: each mod_deregister removes its own map entry behind the iterator's back; the
+        # entry the open-addressing map shifts into the vacated slot is then never visited (m_map_iterate re-examines the slot, the
+        # iterator does not unless the removal goes through it)
+        itn = [e for e in dereg.calls("m_map_itr_new") if e.args and S(e.args[0]).endswith("->modules")]
+        rm_elsewhere = [e for e in dereg.calls() if e.block.id in dereg.in_loop_blocks() and e.callee != "m_map_itr_remove"
+                        and cg.event_may_reach(e, cg.may_reach_set(lambda n_: n_ in {f_.key for f_ in P.funcs if f_.name == "m_map_remove"}))]
+        if itn and rm_elsewhere:
+            ck.ob("C07.3-TEARDOWN-PASS", dereg.site("pass over the modules"), False,
+                  "m_ctx_deregister walks c->modules with a map iterator while '%s' (line %d) removes entries from that map by key: entries shifted into "
+                  "a vacated slot are skipped, so with enough modules some are never deregistered (no on_stop, not ZOMBIE, leaked with the context)"
+                  % (S(rm_elsewhere[0].e)[:60], rm_elsewhere[0].line))
+            passes = None
+    ck.need(passes is None or passes, "m_ctx_deregister has no pass over the modules")
+    passes = passes or []
     cbs = set()
     for ev in passes:
         cbs |= cg.pt.vals(ev.args[1], dereg)
@@ -317,6 +331,28 @@ def run(ck, P):
             ok = ok and stores and all(cval(w.rhs) == IDLE and f.ev_dominates(w, ev) for w in stores)
         ck.ob("C07.5-AUTORELEASE", f.site("m_ctx_deregister()"), bool(ok),
               "automatic release at line %d in %s under %s" % (ev.line, f.name, fmt_facts(facts)))
+        if f.name == "mod_deregister":
+            # "immediately if idle": the decision looks at the module map, the persist flag, the context state, who asked and whether the
+            # deregistration went through — at nothing else (e.g. not at whether a hook is running)
+            cd_ = f.control_deps()
+            gb_ = {g.block for g in rules.bailouts(f)}
+            KEYS = ("->flags", "m_map_len(", "->modules", "->state", "m_ctx_len(", "ret")
+            extra = []
+            for b_ in cd_.get(ev.block.id, ()):
+                t_ = f.blocks[b_].term
+                if b_ in gb_ or not t_ or t_.get("cond") is None:
+                    continue
+                for (a_, p_) in rules.resolve_atoms(f, atoms(t_["cond"], True)):
+                    pass
+                ats_ = rules.resolve_atoms(f, atoms(t_["cond"], True))
+                fu_ = f.params[1]["name"] if len(f.params) > 1 else "from_user"
+                if not any(any(k_ in a_ for k_ in KEYS) or a_ == fu_ for (a_, _p) in ats_):
+                    extra.append((S(t_["cond"]), t_.get("line")))
+            ck.ob("C07.5-AUTORELEASE", f.site("release decided by map, persist flag and state only"), not extra,
+                  "the automatic release depends on nothing but the emptied module map, the persist flag, the idle state and the outcome of the "
+                  "deregistration" if not extra else
+                  "the automatic release additionally depends on '%s' (line %s): an idle, non-persistent context whose last module is deregistered "
+                  "while that condition fails stays attached to the thread for good (m_ctx_register then reports -EEXIST)" % extra[0])
     ck.need(len([e for e in sites if e.fn.name != "main"]) >= 2, "an automatic release site vanished")
     # a context is not released under the feet of a caller that goes on using it: m_mod_register deregisters the module it replaces and
     # then registers the successor in the same context, so that internal deregistration must not be able to trigger the automatic release
